@@ -33,6 +33,17 @@ def signature(test, exn, rep, src):
     elif test == "django_mark_safe":
         shape = {"IndexError": "no-positional-argument-or-short-tuple", "AttributeError": "non-name-assignment-target",
                  "OtherError": "self-referential-assignment"}.get(exn, "")
+        if exn == "AttributeError":
+            # the known finding is about a tuple *assignment* one of whose targets is not a plain name; an AttributeError
+            # without such an assignment in the program is something else
+            try:
+                tree = ast.parse(src)
+                hit = any(isinstance(n, ast.Assign) and any(isinstance(t, (ast.Tuple, ast.List)) and any(not isinstance(e, ast.Name) for e in t.elts)
+                                                              for t in n.targets) for n in ast.walk(tree))
+            except SyntaxError:
+                hit = False
+            if not hit:
+                shape = ""
     elif test == "django_rawsql_used":
         shape = "no-sql-argument"
     elif test == "tarfile_unsafe_members":
